@@ -43,7 +43,7 @@ class MinMaxValue(GenericValue):
             flag = "trim"
         elif (
             self._ast_node is not None
-            and self._file._token_of_node(self._ast_node) != new_token
+            and self._file._token_differ(self._ast_node, new_token)
         ):
             flag = "update"
         else:
